@@ -384,13 +384,21 @@ def r_binders(ck: Checker) -> None:
     its = ck.interp(sl)
     lit = sl.params()[0]
     upd = [c for c in attr_calls(sl, "update") if unparse(c.func.value) == "bound_variables" and "variables" == unparse(c.args[0])]  # type: ignore[attr-defined]
-    ck.need(len(upd) == 1, "symbolic atoms bind at one site")
+    ck.need(len(upd) >= 1, "symbolic atoms bind their variables")
     site = upd[0]
-    ck.guard("only positive symbolic atoms bind", sl, site, f"{lit}.sign == Sign.NoSign and {lit}.atom.ast_type == ASTType.SymbolicAtom and {lit}.atom.symbol.ast_type == ASTType.Function", "`not p(X)` and `not not p(X)` bind nothing")
     cond = "len(variables) == 1 and not has_unsafe_operation(arg) or len(collect_ast(arg, 'BinaryOperation')) + len(collect_ast(arg, 'UnaryOperation')) == 0"
-    ck.guard("an argument binds its variables only if it is operation-free, or has one variable and only invertible operations", sl, site, cond, "gringo binds p(X+1) but not p(X+Y) or p(X*X)")
+    for site_ in upd:
+        ck.guard("only positive symbolic atoms bind", sl, site_, f"{lit}.sign == Sign.NoSign and {lit}.atom.ast_type == ASTType.SymbolicAtom and {lit}.atom.symbol.ast_type == ASTType.Function", "`not p(X)` and `not not p(X)` bind nothing")
+        ck.guard("an argument binds its variables only if it is operation-free, or has one variable and only invertible operations", sl, site_, cond, "gringo binds p(X+1) but not p(X+Y) or p(X*X)")
     arg_loop = enclosing_loop(sl, site)
-    ck.need(arg_loop is not None, "arguments are examined one by one")
+    ck.need(arg_loop is not None and all(enclosing_loop(sl, s_) is arg_loop for s_ in upd), "arguments are examined one by one")
+    # every argument is classified: its variables go to the bound or to the unbound set, never nowhere
+    unb = [c for c in attr_calls(sl, "update") if unparse(c.func.value) == "unbound_variables" and enclosing_loop(sl, c) is arg_loop]  # type: ignore[attr-defined]
+    itm_ = ck.interp(sl, None, mark_stmts={id(enclosing_stmt(sl, c)): "classified" for c in upd + unb}, clear_marks_at={id(arg_loop): "classified"})
+    back_ = itm_.loop_back.get(id(arg_loop), [])
+    okc = bool(back_) and all("classified" in s_.marks for s_ in back_)
+    ck.add("every argument of a positive atom is classified as binding or not binding its variables", okc, sl, arg_loop, f"each iteration over the arguments updates bound_variables or unbound_variables: {okc}",
+           "a variable that is reported neither bound nor unbound (`size(2*X,Y)`) looks as if it did not occur: duplication factors the literal out and drops the variable from the auxiliary atom")
     keys = {"free": "len(collect_ast(arg, 'BinaryOperation')) + len(collect_ast(arg, 'UnaryOperation')) == 0", "one": "len(variables) == 1", "unsafe": "has_unsafe_operation(arg)"}
     keys = {k: next(iter(its.texts(site, ast.parse(v, mode="eval").body))) for k, v in keys.items()}  # in terms of what the locals stand for
     for title, facts in (("an operation-free argument (also a tuple or function term with several variables) binds all its variables", {keys["free"]: True}),
